@@ -577,7 +577,7 @@ def _replay(check: Check, path: str) -> int:
     return 0
 
 
-def run_case_fresh(check_id: str, inner_case, env: t.Optional[dict] = None, timeout: int = 300, py_args: t.Sequence[str] = ()) -> t.Optional[dict]:
+def run_case_fresh(check_id: str, inner_case, env: t.Optional[dict] = None, timeout: int = 300, py_args: t.Sequence[str] = (), pristine: bool = True) -> t.Optional[dict]:
     """Run ``inner_case`` of check ``check_id`` in a NEW interpreter (nothing of the library has run there yet: process-global
     first-use state is pristine) through the ordinary replay path; -> the violation it reports, or None.  Deterministic: the
     child gets PYTHONHASHSEED=0 and the case decides everything else."""
@@ -589,7 +589,10 @@ def run_case_fresh(check_id: str, inner_case, env: t.Optional[dict] = None, time
     try:
         with os.fdopen(fd, "w") as f:
             json.dump({"check": check_id, "signature": "?", "case": inner_case}, f)
-        e = dict(os.environ, PYTHONHASHSEED="0", PYTHONPATH=VERIF, VERIF_PRISTINE="1")
+        e = dict(os.environ, PYTHONHASHSEED="0", PYTHONPATH=VERIF)
+        e.pop("VERIF_PRISTINE", None)
+        if pristine:  # (no set-up before the case: nothing of the library has run yet; cases that need the check's set-up pass False)
+            e["VERIF_PRISTINE"] = "1"
         e.update(env or {})
         p = subprocess.run([sys.executable, *py_args, os.path.join(VERIF, "checks", "main.py"), check_id, "--replay", path], capture_output=True, text=True, env=e, timeout=timeout)
     finally:
